@@ -63,6 +63,9 @@ pub struct Knobs {
     pub writers: Vec<usize>,
     /// subscriptions whose callback panics on local writes (not under C15, whose oracle counts calls)
     pub allow_panicky: bool,
+    /// catch-ups with an inconsistent supplied state (C13 runs only: its oracle reads the node's own
+    /// copies and does not care how they came about)
+    pub odd_catchup: bool,
 }
 
 fn id_string(r: &mut Rng, len: usize, p: usize) -> String {
@@ -141,6 +144,11 @@ pub fn draw(r: &mut Rng, profile: Profile, enabled: &[String]) -> (E1Config, Kno
     } else if r.chance(0.1) {
         let len = *r.pick(&[1usize, 2, 255, 256, 300]);
         node_ids = (0..n).map(|p| id_string(r, len, p)).collect();
+    }
+    // two members that share node id and generation and differ by address only (a node moved to
+    // another address under a static generation, or two nodes configured alike): still two members
+    if n >= 2 && profile != Profile::SizePressure && r.chance(0.04) {
+        node_ids[1] = node_ids[0].clone();
     }
     let id_cost = |s: &String| s.len() + 2 + 8 + addr_bytes + 24;
     // keep the property's assumption true: own digest + a writer's node op + one key-value fit
@@ -265,6 +273,7 @@ pub fn draw(r: &mut Rng, profile: Profile, enabled: &[String]) -> (E1Config, Kno
         prefixes,
         writers,
         allow_panicky: !enabled.iter().any(|e| e == "C15"),
+        odd_catchup: enabled.len() == 1 && enabled[0] == "C13",
     };
     // swarm: each run scales its command mix, sometimes switching a kind off entirely
     {
@@ -515,7 +524,7 @@ impl Gen {
                 if w.incs.is_empty() {
                     return self.advance(w);
                 }
-                Cmd::Catchup { p, member: self.r.usize_below(w.incs.len()), q }
+                Cmd::Catchup { p, member: self.r.usize_below(w.incs.len()), q, claim_collected: self.k.odd_catchup && self.r.chance(0.4) }
             }
             10 => {
                 if w.groups.is_some() && self.r.chance(0.6) {
